@@ -160,9 +160,13 @@ func H_C07_Fixed() {
 		jobj([]string{"a"}, jlit("12345678901234567890123")),          // beyond float64
 		jobj([]string{"a", "b"}, jlit("1.50"), jlit("-0.0e+10")),      // literals kept verbatim
 		jobj([]string{"d"}, jarr(jobj([]string{"x"}, jlit("1")), jobj([]string{"y"}, jarr(jobj([]string{"z"}, jlit("null")))))),
+		jobj([]string{"a"}, jarr(jarr(jobj([]string{"b"}, jlit("1"))))),                                  // object inside an array inside an array
+		jobj([]string{"a"}, jarr(jarr(jobj([]string{"b"}, jlit("1"))), jarr(jlit("2")))),                 // ... with a sibling array
+		jobj([]string{"a"}, jarr(jarr(jarr(jobj([]string{"b"}, jstr("x")), jobj([]string{"c"}, jlit("true")))))), // three levels
 	}
 	ids := []string{"C07.fixed-empty-array", "C07.fixed-nested-empty-array", "C07.fixed-empty-object", "C07.fixed-empty-nested-object",
-		"C07.fixed-bignum", "C07.fixed-literals", "C07.fixed-nested"}
+		"C07.fixed-bignum", "C07.fixed-literals", "C07.fixed-nested", "C07.fixed-array-in-array", "C07.fixed-array-in-array-sibling",
+		"C07.fixed-three-levels"}
 	for i, d := range docs {
 		got := string(JsonFromEEBUSJson([]byte(wire(d))))
 		zzvrt.Assert(got == compact(d), ids[i])
@@ -224,6 +228,15 @@ func H_C07_IntoNative() {
 			zzvrt.Assert(err == nil && got == wire(d), "C07.into-shape")
 		}
 	}
+	// every JSON tree with an object at the top, up to 5 nodes, depth 4 (concrete enumeration: validates the reference)
+	for _, d := range genTrees(5, 4, true) {
+		got, err := JsonIntoEEBUSJson([]byte(compact(d)))
+		zzvrt.Assert(err == nil && got == wire(d), "C07.into-shape")
+		if !hasEmptyContainer(d) {
+			back := string(JsonFromEEBUSJson([]byte(wire(d))))
+			zzvrt.Assert(back == compact(d), "C07.from-shape-small-trees")
+		}
+	}
 	fixed := []jv{jobj([]string{"a"}, jarr()), jobj(nil), jobj([]string{"a"}, jobj(nil)),
 		jobj([]string{"d"}, jarr(jobj([]string{"x"}, jlit("1")), jobj([]string{"y"}, jarr(jobj([]string{"z"}, jlit("null"))))))}
 	for _, d := range fixed {
@@ -233,4 +246,70 @@ func H_C07_IntoNative() {
 	e := newEnv(ShipRoleClient, "")
 	got, err := e.c.transformSpineDataIntoShipJson([]byte(`{"datagram":{"x":1}}`))
 	zzvrt.Assert(err == nil && string(got) == c07EnvPrefix+`{"datagram":[{"x":1}]}`+c07EnvSuffix, "C07.envelope-constants")
+}
+
+func hasEmptyContainer(v jv) bool {
+	if (v.kind == jObj || v.kind == jArr) && len(v.kids) == 0 {
+		return true
+	}
+	for _, k := range v.kids {
+		if hasEmptyContainer(k) {
+			return true
+		}
+	}
+	return false
+}
+
+// genTrees: all trees with at most n nodes and depth at most d; topObj: the root is an object.
+func genTrees(n, d int, topObj bool) []jv {
+	var out []jv
+	if n <= 0 || d <= 0 {
+		return out
+	}
+	if !topObj {
+		out = append(out, jlit("7"), jstr("s"))
+	}
+	// containers with k children splitting the remaining node budget
+	for _, kind := range []int{jObj, jArr} {
+		if topObj && kind == jArr {
+			continue
+		}
+		for _, kids := range genKidLists(n-1, d-1, 3) {
+			v := jv{kind: kind, kids: kids}
+			if kind == jObj {
+				for i := range kids {
+					v.keys = append(v.keys, string(rune('a'+i)))
+				}
+			}
+			out = append(out, v)
+		}
+	}
+	return out
+}
+
+// genKidLists: all lists of up to maxKids trees whose node counts sum to at most n
+func genKidLists(n, d, maxKids int) [][]jv {
+	out := [][]jv{{}}
+	if n <= 0 || d <= 0 || maxKids <= 0 {
+		return out
+	}
+	for first := 1; first <= n; first++ {
+		for _, t := range genTrees(first, d, false) {
+			if countNodes(t) != first {
+				continue
+			}
+			for _, rest := range genKidLists(n-first, d, maxKids-1) {
+				out = append(out, append([]jv{t}, rest...))
+			}
+		}
+	}
+	return out
+}
+
+func countNodes(v jv) int {
+	n := 1
+	for _, k := range v.kids {
+		n += countNodes(k)
+	}
+	return n
 }
